@@ -308,7 +308,11 @@ impl C11 {
         let fee = fobserve(w).cfg.create_farm_fee.clone();
         let k = self.rng.gen_range(2..6u64);
         let rate = self.rng.gen_range(500..5_000u128);
-        let reward = coin(rate * k as u128, "uusdc");
+        // every other time the budget is not a multiple of the duration: after every epoch has
+        // been claimed in full a remainder below one epoch's emission is left, and the farm is
+        // NOT expired before its expiration time has passed
+        let odd = self.n % 2 == 1;
+        let reward = coin(rate * k as u128 + if odd { self.rng.gen_range(1..k as u128) } else { 0 }, "uusdc");
         // sorts before the identifiers the later creations get
         let drained_id = format!("a{}", self.n);
         ok &= self.forked(w, &farm_op(&creator, FarmAction::Create { params: FarmParams { lp_denom: lp.clone(), start_epoch: Some(cur + 1), preliminary_end_epoch: Some(cur + 1 + k), curve: None, farm_asset: reward.clone(), farm_identifier: Some(drained_id.clone()) } }, farm_funds(&reward, &fee)), s.idx, rep);
@@ -328,6 +332,24 @@ impl C11 {
             farm_op(who, FarmAction::Create { params: FarmParams { lp_denom: lp.to_string(), start_epoch: Some(later + 1), preliminary_end_epoch: Some(later + 4), curve: None, farm_asset: r.clone(), farm_identifier: Some(format!("b{n}")) } }, farm_funds(&r, fee))
         };
         let how = (self.n % 3) as usize;
+        if odd {
+            // nobody closes it: somebody else's creations must leave the unexpired farm alone
+            // (judged by `create_conservation`: no unexpired farm disappears during a creation)
+            let limit = fobserve(w).cfg.max_concurrent_farms;
+            for j in 0..limit.min(3) {
+                self.n += 1;
+                let n = self.n;
+                self.forked(w, &next(n, &other, later, &lp, &fee), s.idx + j as usize, rep);
+            }
+            let still = fobserve(w).farms.contains_key(&format!("m-{drained_id}"));
+            if still {
+                rep.held("close", hash_of(&"claimed_to_the_dust_stays"), || json!({"farm": drained_id, "budget": reward.to_string(), "claimed_every_epoch_in_full": true, "still_listed_after_other_creations": true}));
+            } else {
+                rep.failed("close", None, "a farm whose epochs were all claimed but whose budget has a remainder left was closed by somebody else's creation before its expiration time".to_string(), witness(json!({"farm": drained_id, "budget": reward.to_string()})));
+            }
+            w.restore(&snap);
+            return;
+        }
         match how {
             0 => {
                 self.forked(w, &farm_op(&creator, FarmAction::Close { farm_identifier: format!("m-{drained_id}") }, vec![]), s.idx, rep);
